@@ -201,7 +201,7 @@ def family(tier):
         for m in G.DEFAULT_MODES:
             if G.valid_single(k, m) and (tier != "quick" or m in ("mut", "attr_factory", "lit", "field_factory") or k in ("nums", "leaf", "int")):
                 add(G.single(k, m))
-    inh_kinds = ["int", "nums", "leaf", "scores"] if tier == "quick" else kinds
+    inh_kinds = ["int", "nums", "leaf", "scores", "grids"] if tier == "quick" else kinds  # grids: a re-default holding a NESTED mutable element
     for k in inh_kinds:
         base = "mut" if "mut" in G.KINDS[k] else "lit"
         for inh in ("spec_sub_redefault", "plain_sub_redefault"):
